@@ -1557,6 +1557,11 @@ impl<Alloc: BrotliAlloc> BrotliEncoderStateStruct<Alloc> {
         seal |= 0x6u32 << seal_bits;
 
         seal_bits = seal_bits.wrapping_add(6);
+        if self.available_out_ == 0 {
+            // nothing is pending, so the output cursor is stale (it may sit at the very end of
+            // the tiny buffer after a metadata block): start over
+            self.next_out_ = NextOut::None;
+        }
         if !IsNextOutNull(&self.next_out_) {
             destination = &mut GetNextOut!(*self)[self.available_out_..];
         } else {
